@@ -41,7 +41,11 @@ pub fn gen_case(t: &mut Tape) -> Case {
     let mut p = c.prog.clone();
     p.surface.newlines = t.chance(1, 2);
     let base = print::program(&p).trim_end().to_string();
-    let (class, fault): (&str, String) = match t.choose(19) {
+    let (class, fault): (&str, String) = match t.choose(22) {
+        // several errors for one construct (they share a span): each must be rendered
+        19 => ("syntactic", " | join side:left side:right side:full (from t1 | select {zc = 1}) (true)".into()),
+        20 => ("syntactic", " | sort zzz:1 zzz:2 zzz:3 {id}".into()),
+        21 => ("resolution", " | take zzq:1 zzp:2 zzr:3 5".into()),
         // an unknown name inside an interpolated string; escape sequences after / before the
         // placeholder (the string's text is shorter than its spelling)
         14 => ("resolution", " | derive {zz = f\"{zzz_col}: \\t\\n\"}".into()),
